@@ -384,6 +384,20 @@ func c16Defaults(p *core.Program, r *core.Report) {
 	}
 	var queueCap []string
 	var queuePos token.Pos
+	// record values (a struct of limits handled as one value): "rec:<n>" names an entry of recs
+	recs := map[string]map[string]string{}
+	newRec := func(m map[string]string) string {
+		id := fmt.Sprintf("rec:%d", len(recs))
+		recs[id] = m
+		return id
+	}
+	copyRec := func(id string) string {
+		m := map[string]string{}
+		for k, v := range recs[id] {
+			m[k] = v
+		}
+		return newRec(m)
+	}
 	var eval func(env *dflEnv, e ast.Expr) string
 	var callHelper func(env *dflEnv, call *ast.CallExpr, depth int) []string
 	isZeroStruct := func(env *dflEnv, e ast.Expr) bool {
@@ -406,7 +420,20 @@ func c16Defaults(p *core.Program, r *core.Report) {
 		switch v := e.(type) {
 		case *ast.SelectorExpr:
 			if isZeroStruct(env, v.X) {
+				if t := env.info.TypeOf(v); t != nil {
+					if _, isStruct := t.Underlying().(*types.Struct); isStruct {
+						return "zs" // a record field of the all-zero option record is an all-zero record
+					}
+				}
 				return "const:0"
+			}
+			// a field of a record value held in a local (s.logsinkMaxWaitTime)
+			if id, ok := ast.Unparen(v.X).(*ast.Ident); ok {
+				if rv, ok := env.loc[env.info.ObjectOf(id)]; ok && strings.HasPrefix(rv, "rec:") {
+					if fv, ok := recs[rv][v.Sel.Name]; ok {
+						return fv
+					}
+				}
 			}
 			// a limit of the sender read back after it was set
 			if _, tracked := want[v.Sel.Name]; tracked {
@@ -420,6 +447,33 @@ func c16Defaults(p *core.Program, r *core.Report) {
 			}
 			if s, ok := env.loc[env.info.ObjectOf(v)]; ok {
 				return s
+			}
+			// a package-level record of built-in values (var defaults = settings{a: A, b: B})
+			if pv, ok := env.info.ObjectOf(v).(*types.Var); ok && pv.Pkg() != nil && pv.Parent() == pv.Pkg().Scope() {
+				if _, isStruct := pv.Type().Underlying().(*types.Struct); isStruct {
+					se := &strEval{p: p, info: env.info}
+					if lit, linfo := se.pkgVarInit(pv); lit != nil {
+						m := map[string]string{}
+						okLit := true
+						for _, el := range lit.Elts {
+							kv, isKV := el.(*ast.KeyValueExpr)
+							if !isKV {
+								okLit = false
+								break
+							}
+							kid, isId := kv.Key.(*ast.Ident)
+							n, isC := constIntOf(linfo, kv.Value)
+							if !isId || !isC {
+								okLit = false
+								break
+							}
+							m[kid.Name] = fmt.Sprintf("const:%d", n)
+						}
+						if okLit {
+							return newRec(m)
+						}
+					}
+				}
 			}
 		case *ast.CallExpr:
 			if freshOpt(env.info, v) {
@@ -506,6 +560,22 @@ func c16Defaults(p *core.Program, r *core.Report) {
 	assign := func(env *dflEnv, l ast.Expr, s string) {
 		switch lv := ast.Unparen(l).(type) {
 		case *ast.SelectorExpr:
+			// s.f = v with s a record value held in a local
+			if id, ok := ast.Unparen(lv.X).(*ast.Ident); ok {
+				if rv, ok := env.loc[env.info.ObjectOf(id)]; ok && strings.HasPrefix(rv, "rec:") {
+					recs[rv][lv.Sel.Name] = s
+					return
+				}
+			}
+			// p.settings = <record>: every limit the record carries is now in force
+			if strings.HasPrefix(s, "rec:") && !isZeroStruct(env, lv.X) {
+				for f, fv := range recs[s] {
+					if _, tracked := want[f]; tracked {
+						val[f] = fv
+					}
+				}
+				return
+			}
 			if _, tracked := want[lv.Sel.Name]; tracked && !isZeroStruct(env, lv.X) {
 				val[lv.Sel.Name] = s
 			}
@@ -669,6 +739,12 @@ func c16Defaults(p *core.Program, r *core.Report) {
 			ro := sub.info.Defs[hf.Decl.Recv.List[0].Names[0]]
 			if isZeroStruct(env, recvExpr) {
 				sub.zero[ro] = true
+			} else if rv := eval(env, recvExpr); strings.HasPrefix(rv, "rec:") {
+				if _, isPtr := ro.Type().(*types.Pointer); isPtr {
+					sub.loc[ro] = rv
+				} else {
+					sub.loc[ro] = copyRec(rv) // a value receiver works on its own copy
+				}
 			}
 		}
 		i := 0
@@ -1010,8 +1086,29 @@ func c16Paths(p *core.Program, r *core.Report) {
 				if pa.Has("PANIC") {
 					continue
 				}
+				// what a deferred function literal assigns unconditionally is applied on every way out
+				// once the defer statement has been passed
+				deferred := map[string]bool{}
+				for _, ev := range pa {
+					if ev.Kind != "DEFER" {
+						continue
+					}
+					ds, _ := ev.Node.(*ast.DeferStmt)
+					if ds == nil {
+						continue
+					}
+					if fl, ok := ast.Unparen(ds.Call.Fun).(*ast.FuncLit); ok {
+						for _, st := range fl.Body.List {
+							if as, ok := st.(*ast.AssignStmt); ok {
+								for _, l := range as.Lhs {
+									deferred[z.norm(l)] = true
+								}
+							}
+						}
+					}
+				}
 				for _, lim := range limits {
-					if !pa.HasArg("TOUCH", lim) {
+					if !pa.HasArg("TOUCH", lim) && !deferred[lim] {
 						miss = append(miss, lim)
 					}
 				}
